@@ -27,7 +27,8 @@ CONSTANTS Cells,        \* payload buffers
           Pats,         \* base payloads of length MaxLen; the payload universe is every prefix of a base payload
           MacVals,      \* possible MAC results of the non-NULL algorithms (4-tuples)
           MaxPoints,
-          Nil           \* the nil payload (a model value: different from every sequence)
+          Nil,          \* the nil payload (a model value: different from every sequence)
+          WithNil       \* whether nil payloads are loaded
 VARIABLES cell, plain, odd, ks, last
 vars == <<cell, plain, odd, ks, last>>
 Payloads == {SubSeq(p, 1, n) : p \in Pats, n \in 0..MaxLen}
@@ -40,6 +41,7 @@ ZeroMac == <<0, 0, 0, 0>>
 \* -----
 Point == [alg : Algs \cap (1..3), key : Keys, cnt : Counts, bearer : Bearers \cap (0..31), dir : Dirs \cap (0..1)]
 Streams == [1..MaxLen -> Sym]
+\* `last` describes the call just made
 NoCall == [op |-> "none", c |-> 0, alg |-> 0, key |-> 0, cnt |-> 0, bearer |-> 0, dir |-> 0, err |-> FALSE, mac |-> <<>>]
 Init == /\ cell = [c \in Cells |-> Nil] /\ plain = [c \in Cells |-> Nil] /\ odd = [c \in Cells |-> {}]
         /\ ks = <<>> /\ last = NoCall
@@ -69,8 +71,9 @@ Mac(c, alg, key, cnt, bearer, dir) ==
   /\ IF ~GuardOK(alg, bearer, dir, cell[c] = Nil)
      THEN last' = Call("Mac", c, alg, key, cnt, bearer, dir, TRUE, <<>>)
      ELSE \E m \in (IF alg = 0 THEN {ZeroMac} ELSE MacVals) : last' = Call("Mac", c, alg, key, cnt, bearer, dir, FALSE, m)
+Loadable == Payloads \cup (IF WithNil THEN {Nil} ELSE {})
 Next == \E c \in Cells :
-          \/ \E p \in Payloads \cup {Nil} : Load(c, p)
+          \/ \E p \in Loadable : Load(c, p)
           \/ \E alg \in Algs, key \in Keys, cnt \in Counts, bearer \in Bearers, dir \in Dirs :
                Encrypt(c, alg, key, cnt, bearer, dir) \/ Mac(c, alg, key, cnt, bearer, dir)
 Spec == Init /\ [][Next]_vars
